@@ -188,10 +188,16 @@ EvRet ==
          stallFired == \E k \in CallTxLines : FiredIn(k, CallStall)
          c08ret == /\ (panicOutside /\ ~faultInExc) => (x.iserr /\ x.errhas)
                    /\ stallFired => x.errinternal >= 1
+         \* C03: CanAdd / CanRemove answered what the same mutation, issued next,
+         \* returns (non-Multi called states; the scripted handlers ignore the check flag)
+         cl == Trace[callStart]
+         predictsOk == ("predicted" \in DOMAIN cl /\ cl.predicted # ""
+                        /\ \A i \in 1..Len(cl.called) : ~sch[cl.called[i]].multi)
+                       => cl.predicted = x.res
          v0 == IF lost THEN [AllTrue EXCEPT !.nocrash = ~panicked, !.nohang = ~hung]
                ELSE IF firstTx # None /\ firstTx.faulted
                     THEN [AllTrue EXCEPT !.c08 = c08ret]
-                    ELSE [RetVerdict(p, o) EXCEPT !.c08 = c08ret]
+                    ELSE [RetVerdict(p, o) EXCEPT !.c08 = c08ret, !.c03 = @ /\ predictsOk]
          v == IF "views" \in DOMAIN x /\ ~lost
               THEN [v0 EXCEPT !.c01 = ViewsAgree(idx, x.views)
                                       /\ x.views.active = x.active /\ x.views.time = x.time]
